@@ -1,10 +1,100 @@
 /-
 C17 — equalities and orderings are lawful and agree with each other.
-Only property theorems live here; helper lemmas are in `SMD/Proofs`.
+
+Only property theorems live here; helper lemmas are in `SMD/Proofs`.  Every statement is about the
+executable model (`SMD/Model/Value.lean`, `SMD/Model/Path.lean`), which mirrors
+`value/value.go`, `value/fields.go`, `fieldpath/element.go`, `fieldpath/path.go`,
+`fieldpath/pathelementmap.go` and `fieldpath/set.go:291-311`; the model is tied to the Go code by the
+`val` and `pe` correspondence domains.
+
+Carriers: values, key lists (FieldList), path elements, path-element matchers, paths.
+For each: compare = 0 exactly when equals; compare is antisymmetric (swap) and transitive; less iff
+compare negative; equality reflexive and symmetric; ints and floats compare numerically.
+Sorted containers return exactly what was inserted regardless of insertion order.
 -/
 import SMD.Proofs.ValueOrder
+import SMD.Proofs.Containers
 namespace SMD.C17
 
-theorem value_compare_refl (v : Value) : Value.compare v v = .eq := Value.compare_self v
+/-- exact numeric value of a number, in float units (2^-1074) -/
+def num : Value → Option Int
+  | .int i => some (i * scale)
+  | .float u _ => some u
+  | _ => none
+
+/-! ### values -/
+theorem value_compare_eq_iff_equals (a b : Value) : Value.compare a b = .eq ↔ Value.equals a b = true := sorry
+theorem value_compare_swap (a b : Value) : Value.compare b a = (Value.compare a b).swap := sorry
+theorem value_compare_trans {a b c : Value} :
+    Value.compare a b ≠ .gt → Value.compare b c ≠ .gt → Value.compare a c ≠ .gt := sorry
+theorem value_less_iff (a b : Value) : Value.less a b = true ↔ Value.compare a b = .lt := sorry
+theorem value_equals_refl (a : Value) : Value.equals a a = true := sorry
+theorem value_equals_symm (a b : Value) : Value.equals a b = Value.equals b a := sorry
+/-- ints and floats compare numerically (exactly) -/
+theorem value_compare_numeric (a b : Value) (x y : Int) (ha : num a = some x) (hb : num b = some y) :
+    Value.compare a b = compare x y ∧ Value.equals a b = (x == y) := sorry
+
+/-! ### key lists -/
+theorem fieldlist_compare_eq_iff_equals (a b : FieldList) : FieldList.compare a b = .eq ↔ FieldList.equals a b = true := sorry
+theorem fieldlist_compare_swap (a b : FieldList) : FieldList.compare b a = (FieldList.compare a b).swap := sorry
+theorem fieldlist_compare_trans {a b c : FieldList} :
+    FieldList.compare a b ≠ .gt → FieldList.compare b c ≠ .gt → FieldList.compare a c ≠ .gt := sorry
+theorem fieldlist_less_iff (a b : FieldList) : FieldList.less a b = true ↔ FieldList.compare a b = .lt := sorry
+theorem fieldlist_equals_refl (a : FieldList) : FieldList.equals a a = true := sorry
+theorem fieldlist_equals_symm (a b : FieldList) : FieldList.equals a b = FieldList.equals b a := sorry
+
+/-! ### path elements -/
+theorem pe_compare_eq_iff_equals (a b : PE) : PE.compare a b = .eq ↔ PE.equals a b = true := sorry
+theorem pe_compare_swap (a b : PE) : PE.compare b a = (PE.compare a b).swap := sorry
+theorem pe_compare_trans {a b c : PE} :
+    PE.compare a b ≠ .gt → PE.compare b c ≠ .gt → PE.compare a c ≠ .gt := sorry
+theorem pe_less_iff (a b : PE) : PE.less a b = true ↔ PE.compare a b = .lt := sorry
+theorem pe_equals_refl (a : PE) : PE.equals a a = true := sorry
+theorem pe_equals_symm (a b : PE) : PE.equals a b = PE.equals b a := sorry
+
+/-! ### matchers -/
+theorem matcher_compare_eq_iff_equals (a b : PEMatcher) : PEMatcher.compare a b = .eq ↔ PEMatcher.equals a b = true := sorry
+theorem matcher_compare_swap (a b : PEMatcher) : PEMatcher.compare b a = (PEMatcher.compare a b).swap := sorry
+theorem matcher_compare_trans {a b c : PEMatcher} :
+    PEMatcher.compare a b ≠ .gt → PEMatcher.compare b c ≠ .gt → PEMatcher.compare a c ≠ .gt := sorry
+theorem matcher_less_iff (a b : PEMatcher) : PEMatcher.less a b = true ↔ PEMatcher.compare a b = .lt := sorry
+theorem matcher_equals_refl (a : PEMatcher) : PEMatcher.equals a a = true := sorry
+theorem matcher_equals_symm (a b : PEMatcher) : PEMatcher.equals a b = PEMatcher.equals b a := sorry
+
+/-! ### paths -/
+theorem path_compare_eq_iff_equals (a b : Path) : Path.compare a b = .eq ↔ Path.equals a b = true := sorry
+theorem path_compare_swap (a b : Path) : Path.compare b a = (Path.compare a b).swap := sorry
+theorem path_compare_trans {a b c : Path} :
+    Path.compare a b ≠ .gt → Path.compare b c ≠ .gt → Path.compare a c ≠ .gt := sorry
+theorem path_equals_refl (a : Path) : Path.equals a a = true := sorry
+theorem path_equals_symm (a b : Path) : Path.equals a b = Path.equals b a := sorry
+
+/-! ### sorted containers -/
+
+/-- `PathElementSet` built by any insertion sequence -/
+def buildSet (xs : List PE) : List PE := xs.foldl (fun s pe => peInsert pe s) []
+/-- `PathElementMap` built by any insertion sequence -/
+def buildMap {β : Type} (xs : List (PE × β)) : List (PE × β) := xs.foldl (fun m x => pemInsert x.1 x.2 m) []
+
+theorem set_sorted (xs : List PE) : sortedPEs (buildSet xs) = true := sorry
+/-- lookup returns exactly what was inserted (up to `Equals`) -/
+theorem set_has_iff_inserted (xs : List PE) (q : PE) :
+    peHas q (buildSet xs) = xs.any (fun x => PE.equals x q) := sorry
+/-- …regardless of insertion order -/
+theorem set_order_independent (xs ys : List PE) (h : xs.Perm ys) (q : PE) :
+    peHas q (buildSet xs) = peHas q (buildSet ys) := sorry
+/-- a map lookup returns the value inserted last under an equal key -/
+theorem map_get_last_inserted {β : Type} (xs : List (PE × β)) (q : PE) :
+    pemGet q (buildMap xs) = (xs.reverse.find? (fun x => PE.equals x.1 q)).map (·.2) := sorry
+/-- the transcribed `sort.Search` loop returns the lower bound of a monotone predicate, which is the
+position the linear scans `peHas` / `pemGet` / `getChild` of the model stop at on a sorted slice -/
+theorem sortSearch_lower_bound (n : Nat) (f : Nat → Bool)
+    (hmono : ∀ i j, i ≤ j → j < n → f i = true → f j = true) :
+    sortSearch n f ≤ n ∧ (∀ i, i < sortSearch n f → f i = false) ∧ (sortSearch n f < n → f (sortSearch n f) = true) := sorry
+
+/-! ### non-vacuity: the laws are exercised on concrete non-trivial instances -/
+example : Value.compare (.int 1) (.float scale false) = .eq ∧ Value.equals (.int 1) (.float scale false) = true := by
+  simp [Value.compare, Value.equals, cmpInt]
+example : num (.int 1) = some scale ∧ num (.float scale false) = some scale := by simp [num]
 
 end SMD.C17
